@@ -5,7 +5,7 @@ import check
 
 RULE = ("to_mysql_bin called directly on every (Rust integer type x integer column type x signedness) cell: all 8- and "
         "16-bit values exhaustively, for wider types all +-2^k, +-2^k+-1, the bounds of every width and random values; "
-        "also through mysql_common Value::Int/UInt; the boundary values again with every other column flag set (only UNSIGNED decides signedness); oracle: accepted => client decodes the same number, range-containing "
+        "also through mysql_common Value::Int/UInt; the boundary values again with every other column flag set (only UNSIGNED decides signedness); the same integers inside binary rows served by run_on (columns of different widths side by side, rows written by write_row / cell by cell / mixed); oracle: accepted => client decodes the same number, range-containing "
         "columns accept, pointer-sized accept iff the value fits; non-trivial = value outside [0,127] or a cell where type "
         "and column differ in width or signedness; distinct = distinct (type, value, column, signedness)")
 ASSUMPTIONS = ["usize/isize are 64-bit (asserted by the harness platform)"]
@@ -105,6 +105,59 @@ def run(ctx):
     corr["mismatches"] = mism
     corr["distinct_nontrivial"] = nontriv
     corr["samples"] = [{"case": lines[j], "impl": impl[j]} for j in (0, len(lines) // 3, len(lines) // 2, len(lines) - 1)]
+    nontriv_val = corr["distinct_nontrivial"]
+    rows_through_server(ctx)
+    corr["distinct_nontrivial"] = max(corr["distinct_nontrivial"], nontriv_val)
+
+
+def rows_through_server(ctx):
+    """the same integers inside binary rows served by run_on: integer columns of DIFFERENT widths side by side, rows
+    written with write_row, cell by cell, or begun cell by cell and completed by write_row; the client decodes each
+    cell with the column's own width and signedness"""
+    rng = ctx.rng
+    cases = []
+    for i in range(40 if ctx.quick() else 600):
+        n = rng.randint(2, 6)
+        cs, rows, parts = [], [], []
+        for j in range(n):
+            ct = rng.choice(COLS)
+            cs.append(dict(table=b"t", name=b"c%d" % j, type=ct, flags=rng.choice([0, 32, 32, 64, 1])))
+        parts.append("start " + progs.cols_tok(cs))
+        for _r in range(rng.randint(1, 3)):
+            toks, exp = [], []
+            for c in cs:
+                uns = bool(c["flags"] & 32)
+                lo, hi = progs.col_range(c["type"], uns)
+                # a Rust type whose whole range the column contains, or a pointer-sized / generic value inside the range
+                fits = [t for t, (tlo, thi) in progs.INT_TYPES.items() if t not in ("usize", "isize") and lo <= tlo and thi <= hi]
+                ty = rng.choice(fits + ["mint"] if lo < 0 else fits + ["usize"]) if fits else ("isize" if lo < 0 else "usize")
+                tlo, thi = progs.INT_TYPES.get(ty, (-2**63, 2**63 - 1))
+                v = rng.choice([max(lo, tlo), min(hi, thi), rng.randint(max(lo, tlo), min(hi, thi))])
+                toks.append("%s:%d" % (ty, v)); exp.append(("int", v))
+            rows.append(exp)
+            z = rng.random()
+            if z < 0.35:
+                parts.append("wr %d %s p" % (n, " ".join(toks)))
+            elif z < 0.65:
+                parts += ["wc %s p" % t for t in toks] + ["er p"]
+            else:
+                j = rng.randint(1, n - 1)
+                parts += ["wc %s p" % t for t in toks[:j]] + ["wr %d %s p" % (n - j, " ".join(toks[j:]))]
+        parts.append("fin")
+        c = mk_case("c15r_%d" % i, [("prepare", cmd_prepare(b"p")), ("execute", cmd_execute(1))], ["p reply 1 0 0", "x all - " + " ".join(parts)])
+        c.meta["expect"] = [("rows", cs, rows)]
+        cases.append(c)
+
+    def oracle(case, obs):
+        try:
+            d = decode_server(case, obs)
+        except Bad as e:
+            return [(None, "not conformant: %s" % e)]
+        got = [dec for k, dec in d["replies"] if k == "execute"]
+        if not got:
+            return [(None, "no reply to execute (%s)" % result_of(obs))]
+        return [(None, m) for m in progs.units_match(case.meta["expect"], got[0], True)]
+    ctx.diff_conn(cases, tag="C15rows", oracle=oracle, classify=lambda c, o: ["rows_through_run_on"])
 
 
 def replay(ctx, path):
